@@ -69,7 +69,9 @@ pub fn exec_line(line: &str, out: &mut Out) {
 
 fn main() {
     // Panics are caught per case and reported as observations; keep stderr quiet.
-    std::panic::set_hook(Box::new(|_| {}));
+    if std::env::var_os("HARNESS_PANIC_VERBOSE").is_none() {
+        std::panic::set_hook(Box::new(|_| {}));
+    }
     let args: Vec<String> = std::env::args().collect();
     let stdout = std::io::stdout();
     let mut out = BufWriter::with_capacity(1 << 20, stdout.lock());
